@@ -447,6 +447,10 @@ class Recfile(object):
 
         dataview = data.view(numpy.ndarray)
 
+        # the C++ code walks the buffer row by row: give it a contiguous one
+        # (a copy is made only for non-contiguous input such as arr[::2])
+        dataview = numpy.ascontiguousarray(dataview)
+
         if self.is_ascii:
             # for ascii, make sure the data are in native format.  This greatly
             # simplifies the C code.  Convert a copy (only made when needed):
